@@ -31,7 +31,7 @@ type c13Row struct {
 	absMsg
 	Ak  string `json:"ak"` // match zero other
 	Cc  string `json:"cc"` // orig other bot bad
-	Pj  string `json:"pj"` // strip keep
+	Pj  string `json:"pj"` // strip keep junk
 	Di  int64  `json:"di"`
 	Cr  int64  `json:"cr"`
 	Cph string `json:"cph"`
@@ -91,8 +91,11 @@ func (w *world) partial(orig *gpbft.GMessage, r *c13Row) *gpbft.PartialGMessage 
 	if err != nil {
 		panic(err)
 	}
-	if r.Pj == "keep" && orig.Justification != nil {
-		pm.Justification = copyMsg(orig).Justification
+	if r.Pj != "strip" && orig.Justification != nil {
+		pm.Justification = copyMsg(orig).Justification // "keep": the peer did not strip the justification value
+		if r.Pj == "junk" {
+			pm.Justification.Vote.Value = w.chain("other") // ... or put another chain there (aggregate unchanged)
+		}
 	}
 	switch r.Ak {
 	case "zero":
